@@ -1,5 +1,6 @@
 """C12 (save / from_file round trip), C16 (history independence), C17 (read-only analyses):
 two reports that must agree are handed to TLC as twin cases (spec/Twin.tla)."""
+from decwire import excname
 import json
 import os
 import tempfile
@@ -122,7 +123,7 @@ def run_c12(ctx):
         try:
             s2 = roundtrip(s)
         except Exception as e:
-            exc = type(e).__name__
+            exc = excname(e)
         st = project(s)
         structs.add(struct_digest(st))
         if s2 is None:
@@ -158,7 +159,7 @@ def run_c12(ctx):
                     warnings.simplefilter("ignore")
                     System.from_file(path)
             except Exception as e:
-                c["outcome"], c["exc"] = "exc", type(e).__name__
+                c["outcome"], c["exc"] = "exc", excname(e)
             cases.append(c)
     finally:
         os.unlink(path)
@@ -192,7 +193,7 @@ def _names_in_reports(s, st):
         except Exception as e:
             if isinstance(e, drv_solve.HarnessError) or drv_solve.raised_by_harness(e):
                 raise drv_solve.HarnessError("%s: %s: %s" % (key, type(e).__name__, e)) from e
-            out[key] = ["exc:" + type(e).__name__]
+            out[key] = ["exc:" + excname(e)]
     run("solve", lambda: sorted(set(s.solve()[lambda d: d["Type"] != ""]["Component"])))
     run("params", lambda: sorted(s.params()["Component"]))
     run("limits", lambda: sorted(s.limits()["Component"]))
@@ -256,7 +257,7 @@ def c16_cases(s, cases, what, rng, rec=None):
         fresh2 = rebuild(st, order=lambda n: perm[n])
     except Exception as e:
         cases.append({"id": len(cases), "clause": "C16.SameAsFresh.Build", "kind": "digest", "exact": True, "what": what,
-                      "a": "ok", "b": "exc:" + type(e).__name__ + ":" + str(e)[:80], "outcome": "", "exc": "", "st": st})
+                      "a": "ok", "b": "exc:" + excname(e) + ":" + str(e)[:80], "outcome": "", "exc": "", "st": st})
         return
     rb, rc = reports.all_reports(fresh), reports.all_reports(fresh2)
     for t in reports.twin_cases("C16.SameAsFresh", ra, rb, False, what, len(cases)) + \
@@ -670,7 +671,7 @@ def analysis_mix(s, rng, twins, rec):
             try:
                 return drv_solve.table_wire(s.solve())
             except Exception as e:
-                return {"cols": ["exc:" + type(e).__name__], "rows": [], "isnone": True}
+                return {"cols": ["exc:" + excname(e)], "rows": [], "isnone": True}
     t0 = solve_tab()
     tags = {"run": 7, "who": "x"}
     conf = get_conf()
@@ -765,7 +766,7 @@ def ev_wrap(rec, s, op, fn, objs):
     try:
         fn()
     except Exception as e:
-        ev["outcome"], ev["exc"] = "exc", type(e).__name__
+        ev["outcome"], ev["exc"] = "exc", excname(e)
     finally:
         rec.depth -= 1
         ev["after"] = rec._after(s)
